@@ -99,7 +99,7 @@ func Run(args []string) {
 		childMain()
 		return
 	}
-	rep := vh.NewReport(command, "type graphs in the IR of the Lean model LK (literals with {type}/{or} references, type shortcuts and or-shortcuts, arrays, objects with 1..4 key shortcuts / allOf / additionalProperties: \"@T\", enum rule names) over 0..6 added types drawn from a pool of names differing in case, digits, '-', '_' and length; streams: a hand-written corpus, a structured mostly-resolvable stream (references follow the sorts of the types; 0 / 4 / 15 / 40 % of the references drawn from the whole pool), a wild stream (any name anywhere), a key-shortcut stream (2..4 key shortcuts per object, one of them — first, middle or last — missing or not a string type), an ownership-chain stream (types added to other types 3..5 levels deep, the name at the end added there, to the root, or nowhere); one third of the random graphs get an ownership structure (types added to earlier type objects); real Check() verdict of the reference-resolving phases vs LK.linkCheckO, and UsedUserTypes() of the root at eight points of a call history (fresh, after AddType / Check / GetAST / Example / Validate, twice) and of every type object (fresh, after the root's Check, after its own Check) vs LK.used; nontrivial = the graph holds a reference inside an added type or a missing name")
+	rep := vh.NewReport(command, "type graphs in the IR of the Lean model LK (literals with {type}/{or} references, type shortcuts and or-shortcuts, arrays, objects with 1..4 key shortcuts / allOf / additionalProperties: \"@T\", enum rule names) over 0..6 added types drawn from a pool of names differing in case, digits, '-', '_' and length; streams: a hand-written corpus, a structured mostly-resolvable stream (references follow the sorts of the types; 0 / 4 / 15 / 40 % of the references drawn from the whole pool), a wild stream (any name anywhere), a key-shortcut stream (2..4 key shortcuts per object, one of them — first, middle or last — missing or not a string type), an ownership-chain stream (types added to other types 3..5 levels deep, the name at the end added there, to the root, or nowhere); one third of the random graphs get an ownership structure (types added to earlier type objects); real Check() verdict of the reference-resolving phases vs LK.linkCheckO, and UsedUserTypes() of the root at eight points of a call history (fresh, after AddType / Check / GetAST / Example / Validate, twice) and of every type object (fresh, after the root's Check, after its own Check), on one set of objects (stability) AND as the FIRST call on a fresh set of objects that walked a prefix of the history without asking (point picked by the case number), vs LK.used; nontrivial = the graph holds a reference inside an added type or a missing name")
 	type kase struct {
 		g   *graph
 		req string
